@@ -21,7 +21,8 @@ META = {
         ' (err) the circular error is a module-level XlError instance; (skip) '
         'both cycle analyses exclude inverse range assemblers; (ord) the node '
         'at which a cycle is cut is chosen from a sorted sequence.'
-        ' (fresh) every container the cycle search mutates is created inside the per-component loop, so no blocking state leaks from one start node to the next; (accum) the inputs to cut are added to the per-node entry collected over all cycles, never assigned over it, and the callee does not read that map to decide.'),
+        ' (fresh) every container the cycle search mutates is created inside the per-component loop, so no blocking state leaks from one start node to the next; (accum) the inputs to cut are added to the per-node entry collected over all cycles, never assigned over it, and the callee does not read that map to decide.'
+        ' (consume) a graph handed to simple_cycles with copy off is built in the calling function, successor sets included; (scc) the component work-list receives every strongly connected component, one-node components included.'),
     'not_decided': (
         'Termination, completeness of the elementary-cycle enumeration, and '
         'the values of cells off the cycles.'),
@@ -231,6 +232,59 @@ def rule_err(ctx):
     return rr
 
 
+def _skip_in_helper(ctx, f, calls, inv):
+    """The graph handed to simple_cycles comes from a private helper or
+    property of the same class/module, and that helper subtracts a set built
+    with isinstance(.., InvRangesAssembler) from what it returns or stores."""
+    from ..util import with_helpers
+    helpers = [g for g in with_helpers(ctx, f) if g is not f]
+    if f.cls is not None:
+        attrs = {n.attr for n in own_nodes(f) if isinstance(n, ast.Attribute)
+                 and isinstance(n.value, ast.Name) and f.params and
+                 n.value.id == f.params[0]}
+        for g in f.module.all_funcs:
+            if g.cls is f.cls and g.name in attrs and g not in helpers and any(
+                    isinstance(d, ast.Name) and d.id in (
+                        'property', 'cached_property') or isinstance(
+                        d, ast.Attribute) and d.attr in (
+                        'property', 'cached_property')
+                    for d in g.decorators()):
+                helpers.append(g)
+    for g in helpers:
+        names = set()
+        for n in own_nodes(g):
+            if isinstance(n, ast.Assign) and len(n.targets) == 1 and \
+                    isinstance(n.targets[0], ast.Name) and any(
+                    isinstance(c, ast.Call) and isinstance(c.func, ast.Name)
+                    and c.func.id == 'isinstance' and len(c.args) == 2 and (
+                        ctx.cg.resolve_name_expr(g, c.args[1]) or (None, None)
+                    )[1] is inv for c in ast.walk(n.value)):
+                names.add(n.targets[0].id)
+        if not names:
+            continue
+        used = any(isinstance(n, (ast.Assign, ast.Return)) and n.value is not
+                   None and any(isinstance(x, ast.BinOp) and isinstance(
+                       x.op, ast.Sub) and isinstance(x.right, ast.Name) and
+                       x.right.id in names for x in ast.walk(n.value))
+                   for n in own_nodes(g))
+        if not used:
+            continue
+        # the graph argument mentions the helper
+        for c in calls:
+            for a in c.args[:1]:
+                srcs = [a]
+                if isinstance(a, ast.Name):
+                    srcs += [n.value for n in own_nodes(f) if isinstance(
+                        n, ast.Assign) and any(isinstance(t, ast.Name) and
+                                               t.id == a.id for t in n.targets)]
+                for e in srcs:
+                    for x in ast.walk(e):
+                        if isinstance(x, ast.Attribute) and x.attr == g.name \
+                                or isinstance(x, ast.Name) and x.id == g.name:
+                            return True
+    return False
+
+
 def rule_skip(ctx):
     rr = RuleResult('C10', 'C10.skip', 'SIB',
                     'both cycle analyses exclude inverse assemblers', floor=2)
@@ -286,6 +340,11 @@ def rule_skip(ctx):
                                 'add', 'append') and isinstance(
                                 c.func.value, ast.Name):
                             skip_names.add(c.func.value.id)
+        if not skip_names and _skip_in_helper(ctx, f, calls, inv):
+            rr.ok('%s takes its graph from a helper that removes '
+                  'InvRangesAssembler nodes' % q,
+                  '%s:%d' % (f.module.rel, calls[0].lineno))
+            continue
         if not skip_names:
             rr.fail(key_of(f, 'inverse assemblers not excluded'),
                     '%s no longer computes the set of InvRangesAssembler nodes: '
@@ -605,7 +664,192 @@ def _guarded_new_key(g, assign, prm, target):
     return False
 
 
+def _fresh_set(e):
+    """An expression that builds a new set on every evaluation."""
+    if isinstance(e, (ast.Set, ast.SetComp)):
+        return True
+    if isinstance(e, ast.Call) and isinstance(e.func, ast.Name) and \
+            e.func.id in ('set', 'frozenset'):
+        return True
+    if isinstance(e, ast.BinOp) and isinstance(
+            e.op, (ast.Sub, ast.BitAnd, ast.BitOr, ast.BitXor)):
+        return _fresh_set(e.left) or _fresh_set(e.right)
+    if isinstance(e, ast.Call) and isinstance(e.func, ast.Attribute) and \
+            e.func.attr in ('difference', 'union', 'intersection', 'copy',
+                            'symmetric_difference') and not e.keywords:
+        return True
+    return False
+
+
+def rule_consume(ctx):
+    rr = RuleResult('C10', 'C10.consume', 'DEF',
+                    'a graph handed to simple_cycles without copy is owned by '
+                    'the caller: built in the same call, successor sets '
+                    'included', floor=1)
+    p = ctx.project
+    sc = p.func(CYCLE, 'simple_cycles')
+    if len(sc.params) < 2:
+        raise AnalysisError('simple_cycles: parameters not recognised')
+    for rel, q in (('formulas/excel/__init__.py', 'ExcelModel.solve_circular'),
+                   ('formulas/cell.py', 'CellWrapper.check_cycles')):
+        f = p.func(rel, q)
+        for c in [n for n in own_nodes(f) if isinstance(n, ast.Call)
+                  and call_name(n) == 'simple_cycles']:
+            cp = c.args[1] if len(c.args) > 1 else kwarg(c, sc.params[1])
+            sk = c.args[2] if len(c.args) > 2 else (
+                kwarg(c, sc.params[2]) if len(sc.params) > 2 else None)
+            if not (isinstance(cp, ast.Constant) and not cp.value) or \
+                    sk is not None or not c.args:
+                continue  # simple_cycles works on its own copy
+            rr.instances += 1
+            g = c.args[0]
+            where = dict(file=f.module.rel, function=f.qualname, line=c.lineno)
+            if not isinstance(g, ast.Name) or g.id in f.all_params:
+                rr.fail(key_of(f, 'shared graph consumed'),
+                        '%s hands `%s` to simple_cycles with copy off: the '
+                        'enumeration deletes nodes and edges of a graph it does '
+                        'not own' % (q, norm_src(g)), **where)
+                continue
+            binds = [n for n in own_nodes(f) if isinstance(n, ast.Assign) and
+                     any(isinstance(t, ast.Name) and t.id == g.id
+                         for t in n.targets)]
+            items = [n for n in own_nodes(f) if isinstance(n, ast.Assign) and
+                     any(isinstance(t, ast.Subscript) and isinstance(
+                         t.value, ast.Name) and t.value.id == g.id
+                         for t in n.targets)]
+            if len(binds) != 1:
+                raise AnalysisError('%s: binding of the graph `%s` not '
+                                    'recognised' % (f.fq, g.id))
+            v = binds[0].value
+            shallow = None
+            if isinstance(v, ast.Call) and isinstance(
+                    v.func, ast.Attribute) and v.func.attr == 'copy' and \
+                    not v.args:
+                shallow = v.func.value
+            elif isinstance(v, ast.Call) and isinstance(v.func, ast.Name) and \
+                    v.func.id == 'dict' and len(v.args) == 1 and \
+                    not v.keywords and not isinstance(
+                        v.args[0], (ast.GeneratorExp, ast.ListComp)):
+                shallow = v.args[0]
+            elif isinstance(v, ast.Call) and call_name(v) == 'copy' and \
+                    len(v.args) == 1:
+                shallow = v.args[0]
+            elif isinstance(v, ast.Dict) and v.keys and all(
+                    k is None for k in v.keys):
+                shallow = v.values[0]
+            if shallow is not None or isinstance(v, (ast.Attribute,
+                                                     ast.Subscript)):
+                rr.fail(key_of(f, 'shared graph consumed'),
+                        '%s hands `%s = %s` to simple_cycles with copy off: '
+                        'the successor sets are those of `%s`, and the '
+                        'enumeration empties them (every node is removed from '
+                        'every set) - the next analysis of the same cell sees '
+                        'no edges' % (q, g.id, norm_src(v), norm_src(
+                            shallow if shallow is not None else v)), **where)
+                continue
+            vals = []
+            if isinstance(v, ast.DictComp):
+                vals.append(v.value)
+            elif isinstance(v, ast.Dict) and all(k is not None for k in v.keys):
+                vals.extend(v.values)
+            elif isinstance(v, ast.Call) and isinstance(
+                    v.func, ast.Name) and v.func.id == 'dict' and not v.args \
+                    and not v.keywords:
+                pass
+            else:
+                raise AnalysisError('%s: construction of the graph `%s` not '
+                                    'recognised' % (f.fq, g.id))
+            vals.extend(n.value for n in items)
+            if not vals:
+                raise AnalysisError('%s: graph `%s` has no successor sets'
+                                    % (f.fq, g.id))
+            shared = [x for x in vals if not _fresh_set(x)]
+            if shared:
+                rr.fail(key_of(f, 'shared graph consumed'),
+                        '%s builds the graph `%s` with the successor '
+                        'collection `%s`, which is not a new set: '
+                        'simple_cycles(copy off) removes nodes from it' % (
+                            q, g.id, norm_src(shared[0])), **where)
+            else:
+                rr.ok('%s builds `%s` and each of its successor sets anew '
+                      'before handing it over with copy off' % (q, g.id),
+                      '%s:%d' % (f.module.rel, c.lineno))
+    return rr
+
+
+def rule_scc(ctx):
+    rr = RuleResult('C10', 'C10.scc', 'DEF',
+                    'every strongly connected component is searched, one-node '
+                    'components (self references) included', floor=2)
+    p = ctx.project
+    f = p.func(CYCLE, 'simple_cycles')
+    work = None
+    for n in f.node.body:
+        if isinstance(n, ast.While) and isinstance(n.test, ast.Name):
+            work = n.test.id
+    if work is None:
+        raise AnalysisError('simple_cycles: component work-list not recognised')
+    feeds = []
+    for n in own_nodes(f):
+        if isinstance(n, ast.Assign) and any(isinstance(
+                t, ast.Name) and t.id == work for t in n.targets):
+            feeds.append(n.value)
+        elif isinstance(n, ast.AugAssign) and isinstance(
+                n.target, ast.Name) and n.target.id == work:
+            feeds.append(n.value)
+        elif isinstance(n, ast.Call) and isinstance(
+                n.func, ast.Attribute) and n.func.attr in (
+                'extend', 'append', 'update') and isinstance(
+                n.func.value, ast.Name) and n.func.value.id == work and n.args:
+            feeds.append(n.args[0])
+    if not feeds:
+        raise AnalysisError('simple_cycles: nothing feeds the work-list')
+
+    def is_scc(e):
+        return isinstance(e, ast.Call) and isinstance(
+            e.func, ast.Name) and e.func.id == '_strongly_connected_components'
+
+    for e in feeds:
+        rr.instances += 1
+        inner = e
+        while isinstance(inner, ast.Call) and isinstance(
+                inner.func, ast.Name) and inner.func.id in (
+                'list', 'tuple', 'iter', 'reversed') and len(inner.args) == 1:
+            inner = inner.args[0]
+        if is_scc(inner):
+            rr.ok('the work-list receives every component of `%s`'
+                  % norm_src(inner), '%s:%d' % (CYCLE, e.lineno))
+            continue
+        flt = None
+        if isinstance(inner, (ast.ListComp, ast.GeneratorExp, ast.SetComp)) \
+                and len(inner.generators) == 1 and is_scc(
+                    inner.generators[0].iter) and inner.generators[0].ifs:
+            flt = inner.generators[0].ifs[0]
+        elif isinstance(inner, ast.Call) and isinstance(
+                inner.func, ast.Name) and inner.func.id == 'filter' and \
+                len(inner.args) == 2 and is_scc(inner.args[1]):
+            flt = inner.args[0]
+        if flt is not None and all(
+                isinstance(x, ast.Call) and isinstance(x.func, ast.Name) and
+                x.func.id == 'len' for x in ast.walk(flt)
+                if isinstance(x, ast.Call)) and any(
+                isinstance(x, ast.Call) for x in ast.walk(flt)) and any(
+                isinstance(x, ast.Constant) and x.value in (1, 2)
+                for x in ast.walk(flt)):
+            rr.fail(key_of(f, 'components selected by size'),
+                    'simple_cycles keeps only the components with `%s`: a '
+                    'node that refers to itself is a component of one node '
+                    'and an elementary cycle, and is no longer reported'
+                    % norm_src(flt), file=CYCLE, function=f.qualname,
+                    line=e.lineno)
+            continue
+        raise AnalysisError('simple_cycles: work-list fed with `%s`, not '
+                            'recognised' % norm_src(e)[:80])
+    return rr
+
+
 def run(ctx):
     S = ctx.soft
     return [S(rule_lazy, ctx), S(rule_err, ctx), S(rule_skip, ctx), S(rule_ord, ctx),
-            S(rule_fresh, ctx), S(rule_accum, ctx)]
+            S(rule_fresh, ctx), S(rule_accum, ctx), S(rule_consume, ctx),
+            S(rule_scc, ctx)]
